@@ -523,6 +523,15 @@ func runOne(d *driver, stream string, def []byte) {
 		checkCaseVariant(d.res, strings.TrimPrefix(stream, "casevariant:"), def)
 		return
 	}
+	if stream == "nil-config" {
+		// a nil *Config is what definition.ReadFlow takes for "no configuration"; the exported migration entry points
+		// take the same type, so nil must not make them panic
+		d.res.OracleChecks++
+		if pan := guard(func() { migrations.MigrateToLatest(def, nil) }); pan != "" {
+			d.res.Fail("panic:nil-config:"+pan, failInput(stream, def, nil), "MigrateToLatest(definition, nil) panics")
+		}
+		return
+	}
 	if strings.HasPrefix(stream, "legacy-valid:") {
 		// a definition the legacy editor produced: refusing it is a failure of its own narrow class
 		var merr error
